@@ -150,6 +150,50 @@ def r18_4(ck, F):
     ck.expect(ue >= 2, "reader#mismatch-errors", f"{ue} UnexpectedEof sites", f"only {ue} size-mismatch error sites", None)
 
 
+def r18_5(ck, F):
+    ck.rule("R18.5", "accounting state travels with the half: Serialize for io::Sender writes self.bytes_written into the "
+            "transported form and Deserialize initialises bytes_written (and the size mode) from it",
+            "a sized sender moved to another endpoint after some bytes were written: the new holder may write the full "
+            "size again, shutdown succeeds and the receiver silently loses the tail", floor=2)
+    ser = [b for k, b in F.bodies.items() if k.startswith("<rch::io::sender::Sender") and k.endswith("Serialize>::serialize")]
+    de = [b for k, b in F.bodies.items() if k.startswith("<rch::io::sender::Sender") and "Deserialize" in k and k.endswith("::deserialize")]
+    if not ser or not de:
+        raise mir.AnchorMissing("Serialize / Deserialize for io::Sender")
+    ok = False
+    for bb, i, rv in ser[0].aggregates("rch::io::sender::TransportedSender"):
+        e = ser[0].expr(rv["ops"][rv["fields"].index("bytes_written")])
+        ok = e == ("path", "self.bytes_written")
+    ck.expect(ok, "io::Sender::serialize#bytes_written", "bytes_written is transported", "bytes_written is not transported", ser[0].loc(0))
+    ok = False
+    for bb, i, rv in de[0].aggregates("rch::io::sender::Sender"):
+        e = de[0].expr(rv["ops"][rv["fields"].index("bytes_written")])
+        ok = mir.last_field(e) == "bytes_written" and e[0] != "const"
+        e2 = de[0].expr(rv["ops"][rv["fields"].index("size_mode")])
+        ok = ok and "size_mode" in mir.field_leaves(e2)
+    ck.expect(ok, "io::Sender::deserialize#bytes_written", "bytes_written and size_mode restored from the transported form",
+              "the received sender does not restore bytes_written / size_mode from the transported form", de[0].loc(0))
+
+
+def r18_6(ck, F):
+    ck.rule("R18.6", "the reader keeps a received buffer until it is drained: in poll_read `current_buf = None` is stored "
+            "only under has_remaining() == false (a DataBuf may consist of several pieces; chunk() is only the first)",
+            "more data in flight than receive_buffer (slow reader): a message split at a credit boundary arrives in "
+            "pieces, the tail pieces are thrown away with the buffer and the stream has holes", floor=1)
+    b = F.body(PR)
+    n = 0
+    for bb, i, s in b.field_stores("current_buf"):
+        rv = s["rv"]
+        val = b.expr(rv["o"]) if rv["r"] == "use" else ("agg", rv.get("adt"), rv.get("variant"), ())
+        if not (val[0] == "agg" and val[2] == "None"):
+            continue
+        n += 1
+        ce = [(switch_expr(b, sw), switch_meaning(b, sw, v)) for sw, tb, v in controlling_edges(b, bb)]
+        ok = any(e[0] == "call" and e[1].endswith("Buf::has_remaining") and m is False for e, m in ce)
+        ck.expect(ok, f"poll_read#drop-buffer{n}", "buffer dropped only when nothing remains",
+                  f"current_buf is discarded at {b.loc(bb, i)} without has_remaining() being false", b.loc(bb, i))
+    ck.expect(n >= 1, "poll_read#drop-buffer-sites", f"{n} site(s)", "no site clearing current_buf found", b.loc(0))
+
+
 def run(ck, F):
-    for r in (r18_1, r18_2, r18_3, r18_4):
+    for r in (r18_1, r18_2, r18_3, r18_4, r18_5, r18_6):
         ck.run_rule(r)
